@@ -27,12 +27,21 @@ Property theorems only (helper lemmas live in `MJ/Proofs/Lexer*.lean`).
   (`interiorOk`: no token at bracket depth 0 starts with the end delimiter or with `-`/`+` directly
   in front of it — `{{ x - }}` is fine, `{{ x -}}` is the tag with a right marker), a comment body
   does not contain the comment end and is not ambiguous with a marker (`{#-#}` is the comment with
-  a *left* `-`; `{# - #}` and `{#- - -#}` are fine);
+  a *left* `-`; `{# - #}` and `{#- - -#}` are fine; `<!---->` is `<!--` + `-` + an unclosed body), and
+  an unmarked closing side is not read as a marked one (`closeOk`: the end delimiter `--` followed
+  by the text `-x`);
 * `Lexer.goodDelims d`: pairwise distinct non-empty start delimiters (block, variable, comment and,
-  when set, the line statement and line comment prefixes) that do not begin with whitespace or end
-  in a line break, end delimiters that begin with a character that is neither ASCII whitespace, an
-  identifier character nor `-`/`+`, and do not end in whitespace (true of every family in the
-  property's quantifier);
+  when set, the line statement and line comment prefixes) that do not begin with whitespace, line
+  prefixes that do not end in a line break, non-empty end delimiters whose last character that is
+  not horizontal whitespace is not a line break, variable / block end delimiters that do not begin
+  with ASCII whitespace.  Every other set `SyntaxConfigBuilder::build` accepts is covered: end
+  delimiters may begin with `-`/`+` (`-->`), digits, letters, quotes, operators, the comment end
+  with whitespace; they may end in blanks.  What stays outside and why (real code probed at each
+  point, see lib/props/c10.py META "not covered"): whitespace that belongs to a delimiter is at the
+  same time whitespace a rule of the statement removes (a start delimiter ` {%` behind `-}}`, a
+  trailing `\n` of the template that is the end of `%}\n`), so the statement contradicts itself
+  there; a variable / block end delimiter that begins with ASCII whitespace is never found (every
+  tag is a syntax error);
 * line statements and line comments are tags of their own (`Kind.lineStmt`, `Kind.lineComment`): the
   tag is the prefix and the interior / comment text, the blanks up to the end of the line and the
   line break are the beginning of the text behind it; the rules treat them as the block / comment
@@ -93,6 +102,49 @@ example : delimFree defaultDelims ⟨['a'],
     is the comment with a left marker -/
 example : delimFree defaultDelims ⟨[], [(⟨.comment [], .none, .minus⟩, [])]⟩ = false := by decide
 
+/-- comment delimiters `<!--` / `-->`: the comment end begins with `-` -/
+def html : Delims :=
+  { bs := ['{', '{', '%'], be := ['%', '}', '}'], vs := ['<', '<', '<'], ve := ['>', '>', '>'],
+    cs := ['<', '!', '-', '-'], ce := ['-', '-', '>'], ls := [], lc := [] }
+
+/-- all three end delimiters begin with `-` -/
+def dashEnds : Delims :=
+  { bs := ['<', '%'], be := ['-', '%', '>'], vs := ['<', '='], ve := ['-', '>'],
+    cs := ['<', '#'], ce := ['-', '#', '>'], ls := [], lc := [] }
+
+/-- end delimiters that end in horizontal whitespace, a comment end that begins with a blank -/
+def blankEnds : Delims :=
+  { bs := ['{', '%'], be := ['%', '}', ' '], vs := ['{', '{'], ve := ['}', '}', '\t'],
+    cs := ['{', '#'], ce := [' ', '#', '}'], ls := [], lc := [] }
+
+/-- `lex_eq_spec` covers end delimiters that begin with `-`/`+`, a digit or a letter, comment ends
+    that begin with whitespace and end delimiters that end in horizontal whitespace:
+    `x<!--+-->\n](` (the empty comment with a left marker of KNOWN_FINDINGS 2cdfe64),
+    `a <% raw -%> r <% endraw -%> <= v --> <%-if t-%>\n<#--#>\n`,
+    `a\n {% if t %} \n {# c #}  {{- v }}\t` -/
+example : goodDelims html = true ∧ goodDelims dashEnds = true ∧ goodDelims blankEnds = true ∧
+    goodDelims ⟨['<', '1'], ['1', '>'], ['<', '2'], ['2', '>'], ['<', '3'], ['3', '>'], [], []⟩ = true ∧
+    goodDelims ⟨['<', 'b'], ['b', '>'], ['<', 'v'], ['v', '>'], ['<', 'c'], ['c', '>'], [], []⟩ = true ∧
+    delimFree html ⟨['x'], [(⟨.comment [], .plus, .none⟩, ['\n', ']', '('])]⟩ = true ∧
+    delimFree dashEnds ⟨['a', ' '],
+      [(⟨.raw [' ', 'r', ' '] .none .none false, .none, .none⟩, [' ']), (⟨.var (vocabV false), .none, .minus⟩, [' ']),
+       (⟨.block (vocabIf true), .minus, .none⟩, ['\n']), (⟨.comment [], .minus, .none⟩, ['\n'])]⟩ = true ∧
+    delimFree blankEnds ⟨['a', '\n', ' '],
+      [(⟨.block (vocabIf false), .none, .none⟩, ['\n', ' ']), (⟨.comment [' ', 'c'], .none, .none⟩, [' ']),
+       (⟨.var (vocabV false), .minus, .none⟩, [])]⟩ = true := by decide
+
+/-- the two repaired points, evaluated: the whitespace behind `<!--+-->` stays, `<% raw -%>` is a raw tag -/
+example :
+    renderRes ['V'] [] (lex ⟨false, false, true⟩ html (findStart html)
+      ['x', '<', '!', '-', '-', '+', '-', '-', '>', '\n', ']', '(']) = some ['x', '\n', ']', '('] ∧
+    renderRes ['V'] [] (lex ⟨false, false, true⟩ dashEnds (findStart dashEnds)
+      "a <% raw -%> r <% endraw -%> b".toList) = some "a  r  b".toList := by decide
+
+/-- still excluded, because the source reads differently: `<!---->` is a comment with a left `-`
+    that never ends, `<= v --` followed by `-x` (end delimiter `--`) is read as `-` + `--` -/
+example : delimFree html ⟨[], [(⟨.comment [], .none, .none⟩, [])]⟩ = false ∧
+    closeOk ['-', '-'] .none ['-', 'x'] = false := by decide
+
 /-- the same with the search as a parameter: any search that is leftmost-longest in the sense of
     `LeftmostLongest` (leftmost start, then longest pattern, line statement prefix only at line
     start) gives the rules -/
@@ -112,14 +164,29 @@ theorem memchr_is_leftmostLongest :
   rw [this]; exact findLL_leftmostLongest _
 
 /-- `tokenize_block_or_var` finds the end of a tag exactly behind its interior: for every end
-    delimiter whose first character is not whitespace, an identifier character or a marker, every
-    well-formed token list (blanks, identifiers, integers, string literals with escapes, operators,
-    balanced brackets) in which no token at bracket depth 0 starts like the end of the tag, and
-    every marker `m`, scanning `interior ++ m ++ end ++ x` stops with `x` unread and reports `m`. -/
+    delimiter whose first character is not ASCII whitespace (it may be `-`, `+`, a digit, a letter,
+    a quote …), every well-formed token list (blanks, identifiers, integers, string literals with
+    escapes, operators, balanced brackets) in which no token at bracket depth 0 starts like the end
+    of the tag, and every marker `m`, scanning `interior ++ m ++ end ++ x` stops with `x` unread and
+    reports `m` — provided an unmarked end is not read as a marked one (`closeOk`: the end
+    delimiter `--` followed by the text `-x` is, by the lexer as by Jinja2, read as `-` + `--`). -/
 theorem interior_end_found (e : List Char) (ts : List Tok) (m : Mark) (x : List Char)
-    (he : headOk e = true) (h : interiorOk e 0 ts (m.src ++ (e ++ x)) = true) :
+    (he : headOk e = true) (h : interiorOk e 0 ts (m.src ++ (e ++ x)) = true)
+    (hc : closeOk e m x = true) :
     scanTag e false .top 0 (srcs ts ++ (m.src ++ (e ++ x))) = .found x m.ws :=
-  Lexer.interior_end_found he ts m x h
+  Lexer.interior_end_found he ts m x h hc
+
+/-- end delimiters that begin with a marker character, a digit or a letter: `<= v ->`, `<= v -->`
+    (marked), `{{ 1 2}`, `{{ v end`; the ambiguous `--` + `-x` is excluded by `closeOk` -/
+example :
+    headOk ['-', '>'] = true ∧ interiorOk ['-', '>'] 0 [.ws [' '], .ident ['v'], .ws [' ']] ['-', '>', 'z'] = true ∧
+      closeOk ['-', '>'] .none ['z'] = true ∧
+    interiorOk ['-', '>'] 0 [.ws [' '], .ident ['v'], .ws [' ']] ['-', '-', '>', 'z'] = true ∧
+    headOk ['2', '}'] = true ∧ interiorOk ['2', '}'] 0 [.ws [' '], .int ['1'], .ws [' ']] ['2', '}'] = true ∧
+    interiorOk ['2', '}'] 0 [.ws [' '], .int ['1']] ['2', '}'] = false ∧
+    headOk ['e', 'n', 'd'] = true ∧ interiorOk ['e', 'n', 'd'] 0 [.ws [' '], .ident ['v'], .ws [' ']] ['e', 'n', 'd'] = true ∧
+    closeOk ['-', '-'] .none ['-', 'x'] = false ∧ closeOk ['-', '-'] .none ['x'] = true ∧
+    closeOk ['-', '-'] .minus ['-', 'x'] = true := by decide
 
 /-- `{{ {'a': '}}'} }}`: the end delimiter inside a string inside braces does not end the tag;
     `{{ x - }}` has an operator at its end, `{{ 1 -}}` a marker -/
@@ -129,6 +196,38 @@ example :
     interiorOk ['}', '}'] 0 [.ws [' '], .ident ['x'], .ws [' '], .op '-', .ws [' ']] ['}', '}'] = true ∧
     interiorOk ['}', '}'] 0 [.ws [' '], .int ['1'], .ws [' ']] ['-', '}', '}'] = true ∧
     interiorOk ['}', '}'] 0 [.ws [' '], .ident ['x'], .ws [' '], .op '-'] ['}', '}'] = false := by decide
+
+/-- A string literal is read as one token, whatever it contains: for every quote, every body that
+    `utils::unescape` accepts (`strBodyOk`: no unescaped quote; `\uXXXX` with surrogates only as a
+    high one directly followed by a low one, `\xXX`, octal escapes that fit a byte, any other
+    character behind a backslash) and every end delimiter, scanning `"body"rest` inside a tag
+    continues behind the closing quote — end delimiters, start delimiters and markers inside the
+    string do not end the tag (`{{ "}}" }}`, `{% if x == "%}" %}`).  The string must not itself
+    begin like the end of the tag (an end delimiter that begins with a quote). -/
+theorem string_literal_is_one_token (e : List Char) (bal : Int) (q : Char) (body rest : List Char)
+    (hq : q = '\'' ∨ q = '"') (hb : strBodyOk q 0 body = true)
+    (hne : bal ≠ 0 ∨ endHere e (q :: (body ++ [q] ++ rest)) = false) :
+    scanTag e false .top bal (q :: (body ++ [q]) ++ rest) = scanTag e false .top bal rest :=
+  tok_str q body rest hq hb ⟨noLineEnd_false _ _, noEnd_of (Or.inr hne)⟩
+
+/-- `"}}"`, `'\u007d}'`, a surrogate pair, `\x41\101\n\q`, `\u+041`; rejected: a lone surrogate,
+    a high surrogate followed by text, `\400`, three hex digits, an unescaped quote -/
+example :
+    strBodyOk '"' 0 ['}', '}'] = true ∧ strBodyOk '\'' 0 "\\u007d}".toList = true ∧
+    strBodyOk '"' 0 "\\ud83d\\ude00".toList = true ∧ strBodyOk '"' 0 "\\x41\\101\\n\\q\\\"".toList = true ∧
+    strBodyOk '"' 0 "\\u+041\\x+f\\08".toList = true ∧
+    strBodyOk '"' 0 "\\ud83d".toList = false ∧ strBodyOk '"' 0 "\\ud83dx".toList = false ∧
+    strBodyOk '"' 0 "\\ude00\\ud83d".toList = false ∧ strBodyOk '"' 0 "\\400".toList = false ∧
+    strBodyOk '"' 0 "\\u123".toList = false ∧ strBodyOk '"' 0 "a\"b".toList = false := by decide
+
+/-- `{{ "}}" }}`, `{% if x == "%}" %}` and `{{ '\ud83d\ude00}}' -}}` are tags that read back as written -/
+example :
+    interiorOk ['}', '}'] 0 [.ws [' '], .str '"' ['}', '}'], .ws [' ']] ['}', '}', 'z'] = true ∧
+    interiorOk ['%', '}'] 0 [.ws [' '], .ident ['i', 'f'], .ws [' '], .ident ['x'], .ws [' '], .op2 '=' '=', .ws [' '],
+      .str '"' ['%', '}'], .ws [' ']] ['%', '}'] = true ∧
+    interiorOk ['}', '}'] 0 [.ws [' '], .str '\'' "\\ud83d\\ude00}}".toList, .ws [' ']] ['-', '}', '}'] = true ∧
+    delimFree defaultDelims ⟨['a'], [(⟨.var [.ws [' '], .str '"' "\\u007d}".toList, .ws [' ']], .none, .minus⟩, [' ', 'b'])]⟩ = true := by
+  decide
 
 /-- A line statement ends at the end of its line: behind a well-formed interior (brackets closed;
     at depth 0 blanks contain no line break and are followed by another token) the blanks up to the
@@ -218,7 +317,8 @@ theorem lead_rule_line (cfg : Cfg) (first : Bool) (ctx : List Char) (marker : Ma
   simp [cut, rightCut]
 
 example : CtxOk true [] := Or.inl ⟨rfl, rfl⟩
-example : CtxOk false ['}', '%'] := Or.inr ⟨rfl, '}', ['%'], rfl, by decide⟩
+example : CtxOk false ['}', '%'] := Or.inr ⟨rfl, [], '}', ['%'], rfl, by simp, by decide⟩
+example : CtxOk false [' ', '}', '%'] := Or.inr ⟨rfl, [' '], '}', ['%'], rfl, by simp [isHws, isWs, isNl], by decide⟩
 example : CtxInv false [' ', 'c', '#', '#'] ['\n', ' ', ' '] := Or.inr ⟨'\n', by simp, by decide⟩
 
 /-- What is skipped behind a block/comment/raw tag (`handle_tail_ws`: now, or by the pending
@@ -390,6 +490,27 @@ theorem table_radix :
     (List.range 128).all (fun n =>
       (radixPrefix '0' [Char.ofNat n]).isSome == MJ.Gen.c10RadixPrefixes.any (·.2.1 == Char.ofNat n)) = true := by decide
 
+/-- the escape table of `utils::unescape` = `strStep` behind a backslash: only `u`, `x` and the octal
+    digits start an escape that takes further characters, every other character is taken as it is;
+    `\u` takes 4 and `\x` 2 characters in radix 16, an octal escape up to 2 more digits, surrogates
+    are `0xD800..=0xDFFF` -/
+theorem table_unescape :
+    MJ.Gen.c10UnescapeArms.filter (fun a => a.2 != "char") = [("'u'", "u16"), ("'x'", "hex"), ("'0'..='7'", "oct")] ∧
+    MJ.Gen.c10UnescapeNums =
+      [("u16_take", 4), ("u16_radix", 16), ("hex_take", 2), ("hex_radix", 16), ("oct_more", 2), ("oct_radix", 8),
+       ("surrogate_first", 55296), ("surrogate_last", 57343)] ∧
+    (List.range 128).all (fun n =>
+      let c := Char.ofNat n
+      match strStep '"' .bs 0 c with
+      | .cont (.u 0 0) 0 => c == 'u'
+      | .cont (.x 0) 0 => c == 'x'
+      | .cont (.oct 2 v) 0 => isOct c && v == n - 48
+      | .cont .txt 0 => !(c == 'u' || c == 'x' || isOct c)
+      | _ => false) = true ∧
+    (List.range 65536).all (fun v => isSurr v == (decide (55296 ≤ v) && decide (v ≤ 57343))) = true := by
+  refine ⟨by decide, by decide, by decide, ?_⟩
+  simp [isSurr]
+
 /-- every substring / byte search of `lexer.rs` is one the model transcribes: `memchr` in
     `find_start_marker_memchr` (`findStartDefault`), `find_overlapping` and the line-start `find` in
     `find_start_marker` (`acFind`, `lineStartP`), `memstr` in `handle_start_marker` (comment end,
@@ -406,7 +527,7 @@ theorem table_search_sites :
        ("handle_raw_tag", "starts_with", 2), ("handle_raw_tag", "trim_end", 1), ("handle_raw_tag", "trim_start", 1),
        ("handle_start_marker", "memstr", 1), ("handle_start_marker", "take_while", 1),
        ("lex_identifier", "map_while", 1), ("lex_identifier", "take_while", 1),
-       ("lstrip_block", "trim_end_matches", 1), ("new", "ends_with", 2), ("skip_basic_tag", "strip_prefix", 7),
+       ("lstrip_block", "trim_end_matches", 1), ("new", "ends_with", 2), ("skip_basic_tag", "strip_prefix", 9),
        ("skip_nl", "strip_prefix", 2), ("skip_whitespace", "map_while", 1),
        ("tokenize_block_or_var", "position", 1), ("tokenize_block_or_var", "starts_with", 4),
        ("tokenize_block_or_var", "take_while", 1), ("tokenize_root", "trim_end", 1)] := by decide
